@@ -92,3 +92,7 @@ func tapAdd(r *h.Rec, e h.Ev) { r.Add(e) }
 type tup2T = lo.Tuple2[int, int]
 type tup2T64 = lo.Tuple2[int, int64]
 type timeDur = time.Duration
+
+func nil2bg() context.Context { return context.Background() }
+
+func ctxWith() context.Context { return context.WithValue(context.Background(), h.KeySub, "sub") }
